@@ -1,23 +1,43 @@
 //! C07: index lookups report exact overlaps (no false negatives or positives).
 //!
 //! Request lines
-//!   case <i> coll <d0>;<d1>;…           d_i = comma separated ascending hashes; the three index types
-//!                                       (LinearIndex, mem RevIndex, disk RevIndex) are built over it
-//!   cnt lin|mem|disk <query>            counter_for_query -> `id:count,…` ascending in id (`-` = empty)
+//!   case <i> coll <d0>;<d1>;…           d_i = comma separated ascending hashes (k 21, DNA, flat, scaled 1);
+//!                                       the three index types (LinearIndex, mem RevIndex, disk RevIndex)
+//!                                       are built over it at once
+//!   case <i> mix <r0>;<r1>;…            r_i = <k>:<mol>:<abund>:<s|n><v>:<hashes> : one single-sketch
+//!                                       signature each (stored k, dna|protein|dayhoff|hp, tracking 0|1,
+//!                                       scaled v or num v); nothing is built until `mk` / `mkmem`
+//!   cnt lin|mem|disk <query>            counter_for_query -> `id:count,…` ascending in id (`-` = empty);
+//!                                       <query> = a hash list (k 21, DNA, flat, scaled 1) or a full <r>
 //!   search lin|mem|disk <query> <t>     LinearIndex::search / mem RevIndex::search / disk
 //!                                       matches_from_counter -> `id:count,…` sorted by (count desc, id)
 //!                                       + ` ordered|unordered` (was the returned order non-increasing in
-//!                                       the count) ; every returned name/location must be dataset id's own
+//!                                       the count); the returned location / name is mapped back to the
+//!                                       dataset id through the index's own manifest
 //!   cntq <t> <q1;q2;…> <query>          mem RevIndex built with queries = Some(qs) and threshold t (t == 0:
 //!                                       merged query), then counter_for_query of one of the qs (or,
 //!                                       for t == 0, any subset of their union) -> counter
 //!   capi <query> <num> <k> <cont>       C API revindex_search with threshold num/2^k -> `id:scorebits,…`
 //!                                       sorted by (score desc, id) + order token
+//! Histories on the index objects (<sel> = `-` or `k=..,mol=..,abund=0|1,scaled=..,num=..`):
+//!   csel <sel>                          Collection::select, appended to the chain of selections that is
+//!                                       applied to the collection of every later mk / upd
+//!                                       -> the internal locations that are left
+//!   mk lin|disk [n]                     build over chain(collection of the first n signatures);
+//!                                       lin: Collection::from_sigs, disk: Collection::from_paths over
+//!                                       .sig files + RevIndex::create -> `ok <len>` | `err <Variant>`
+//!   mkmem <sel> [n]                     mem RevIndex::new_with_sigs(first n signatures, sel, 0, None)
+//!   sel lin <sel>                       LinearIndex::select (ids are renumbered) -> `ok <len>` | `err …`
+//!   upd disk <n>                        RevIndexOps::update with chain(first n signatures)
+//!   reopen disk                         drop the index, RevIndex::open on its directory
+//!   locs lin|mem|disk                   the `d<loc>` names of the index's datasets in id order
 //!
 //! Built with `--no-default-features` (sourmash with its default feature set: no `branchwater`, hence
 //! no `sourmash::index::revindex` module at all, and the serial cfg variants of LinearIndex and
-//! Collection::from_sigs) only the `lin` operations are answered; `mem`, `disk`, `cntq` and `capi`
-//! answer `NA`.
+//! Collection::from_sigs) only the `lin` operations (and `csel`) are answered; everything about `mem`
+//! and `disk`, `cntq` and `capi` answers `NA`.
+use sourmash::collection::{Collection, CollectionSet};
+use sourmash::encodings::HashFunctions;
 #[cfg(feature = "disk")]
 use sourmash::ffi::index::revindex::{revindex_search, SourmashRevIndex};
 #[cfg(feature = "disk")]
@@ -32,8 +52,11 @@ use sourmash::index::revindex::mem_revindex;
 #[cfg(feature = "disk")]
 use sourmash::index::revindex::{RevIndex, RevIndexOps};
 #[cfg(feature = "disk")]
-use sourmash::selection::Selection;
+use sourmash::index::Index;
+use sourmash::selection::{Select, Selection};
 use sourmash::signature::Signature;
+use sourmash::sketch::minhash::KmerMinHash;
+use sourmash::sketch::Sketch;
 use verif_harness::index_util::*;
 use verif_harness::*;
 
@@ -47,109 +70,582 @@ fn subset(r: &mut Rng, u: &[u64], num: u64, den: u64) -> Vec<u64> {
     u.iter().copied().filter(|_| r.chance(num, den)).collect()
 }
 
+fn overlap(a: &[u64], b: &[u64]) -> u64 {
+    let s: std::collections::HashSet<u64> = b.iter().copied().collect();
+    a.iter().filter(|h| s.contains(h)).count() as u64
+}
+
+/// the classic family: one small collection, every query against all three index types
+fn gen_small(r: &mut Rng, o: &mut Out, ci: u64, thorough: bool) {
+    // a 64-hash universe; a few cases use hashes at the top of the u64 range
+    let base: u64 = if ci % 7 == 3 { u64::MAX - 63 } else if ci % 7 == 5 { (1 << 63) - 32 } else { r.below(1000) };
+    let usize_ = r.range(4, 64);
+    let u: Vec<u64> = (0..usize_).map(|i| base + i).collect();
+    let nd = r.range(1, 12) as usize;
+    let mut c: Vec<Vec<u64>> = vec![];
+    for i in 0..nd {
+        if i > 0 && r.chance(1, 5) {
+            let j = r.below(i as u64) as usize; // duplicate of a dataset
+            c.push(c[j].clone());
+            continue;
+        }
+        let num = r.range(1, 7);
+        let mut d = subset(r, &u, num, 8);
+        if d.is_empty() {
+            d.push(*r.pick(&u));
+        }
+        c.push(d);
+    }
+    o.case(&format!("coll {}", show_coll(&c)));
+    let nq = if thorough { 6 } else { 4 };
+    for qi in 0..nq {
+        let q: Vec<u64> = match (qi + ci) % 6 {
+            0 => c[r.below(nd as u64) as usize].clone(), // a dataset itself
+            1 => {
+                // disjoint from at least one dataset
+                let d = &c[r.below(nd as u64) as usize];
+                u.iter().copied().filter(|h| !d.contains(h) && r.chance(2, 3)).collect()
+            }
+            2 => u.clone(),
+            3 if r.chance(1, 3) => vec![],
+            _ => {
+                let num = r.range(1, 7);
+                subset(r, &u, num, 8)
+            }
+        };
+        let qs = show_nats(q.iter().copied());
+        let maxov = c.iter().map(|d| overlap(d, &q)).max().unwrap_or(0);
+        for kind in ["lin", "mem", "disk"] {
+            o.op(&format!("cnt {} {}", kind, qs));
+        }
+        for kind in ["lin", "mem", "disk"] {
+            let t1 = r.range(0, maxov + 1);
+            o.op(&format!("search {} {} {}", kind, qs, t1));
+            let t2 = *r.pick(&[0, 1, maxov, maxov + 1]);
+            o.op(&format!("search {} {} {}", kind, qs, t2));
+        }
+        if qi == 1 {
+            // index restricted to a set of queries
+            let nqs = r.range(1, 3);
+            let mut qs: Vec<Vec<u64>> = (0..nqs)
+                .map(|_| {
+                    let num = r.range(1, 7);
+                    let mut v = subset(r, &u, num, 8);
+                    if v.is_empty() {
+                        v.push(*r.pick(&u));
+                    }
+                    v
+                })
+                .collect();
+            if !q.is_empty() && r.chance(1, 2) {
+                qs.push(q.clone());
+            }
+            let t = *r.pick(&[0u64, 0, 1, 3]);
+            let probe = if t == 0 && r.chance(1, 2) {
+                let mut all: Vec<u64> = qs.iter().flatten().copied().filter(|_| r.chance(2, 3)).collect();
+                all.sort_unstable();
+                all.dedup();
+                all
+            } else {
+                qs[r.below(qs.len() as u64) as usize].clone()
+            };
+            o.op(&format!("cntq {} {} {}", t, show_coll(&qs), show_nats(probe.iter().copied())));
+        }
+        if !q.is_empty() {
+            let k = r.range(0, 4);
+            let num = r.range(0, 1 << k);
+            o.op(&format!("capi {} {} {} {}", qs, num, k, r.below(2)));
+        }
+    }
+    // a short history on the same objects: narrowing the LinearIndex (all datasets are flat k-21 DNA
+    // scaled-1 sketches: a criterion either keeps all of them or none) and asking again
+    if ci % 3 == 0 {
+        let q = show_nats(u.iter().copied().filter(|_| r.chance(1, 2)));
+        o.op(&format!("sel lin {}", r.pick(&["-", "abund=0", "k=21,mol=dna", "scaled=1", "num=0", "abund=1", "k=31"])));
+        o.op("locs lin");
+        o.op(&format!("cnt lin {}", q));
+        o.op(&format!("search lin {} 1", q));
+        o.op(&format!("cnt mem {}", q));
+        o.op(&format!("cnt disk {}", q));
+    }
+}
+
+/// sizes at the boundaries of the batching / container constants a build may use
+const BIG: [u64; 12] = [1023, 1024, 1025, 2047, 2048, 2049, 4095, 4096, 4097, 3000, 1500, 5000];
+
+/// `n` ascending hashes starting near `base` with gaps of 1..=gap
+fn ladder(r: &mut Rng, base: u64, n: u64, gap: u64) -> Vec<u64> {
+    let mut v = Vec::with_capacity(n as usize);
+    let mut x = base;
+    for _ in 0..n {
+        x += r.range(1, gap);
+        v.push(x);
+    }
+    v
+}
+
+/// a collection with large datasets: `sizes` hashes drawn from one ladder (so that they overlap), plus a
+/// few small datasets that share hashes with them
+fn large_coll(r: &mut Rng, sizes: &[u64]) -> Vec<Vec<u64>> {
+    let maxn = *sizes.iter().max().unwrap();
+    let base = if r.chance(1, 4) { (1u64 << 62) + r.below(1000) } else { r.below(1 << 40) };
+    let u = ladder(r, base, maxn + maxn / 8 + 8, 5);
+    let mut c: Vec<Vec<u64>> = vec![];
+    for &n in sizes {
+        // a window of the ladder, or a prefix, or an even spread: exactly n hashes
+        let d: Vec<u64> = match r.below(3) {
+            0 => u[..n as usize].to_vec(),
+            1 => {
+                let off = r.below(u.len() as u64 - n + 1) as usize;
+                u[off..off + n as usize].to_vec()
+            }
+            _ => {
+                let mut idx: Vec<usize> = (0..u.len()).collect();
+                for i in 0..n as usize {
+                    let j = i + r.below((u.len() - i) as u64) as usize;
+                    idx.swap(i, j);
+                }
+                let mut d: Vec<u64> = idx[..n as usize].iter().map(|&i| u[i]).collect();
+                d.sort_unstable();
+                d
+            }
+        };
+        c.push(d);
+    }
+    let nsmall = r.range(1, 3);
+    for _ in 0..nsmall {
+        let big = &c[r.below(sizes.len() as u64) as usize];
+        let mut d: Vec<u64> = big.iter().copied().filter(|_| r.chance(1, 60)).collect();
+        // the hashes at the ends of 1024-chunks of a big dataset are favourites
+        for p in [1022usize, 1023, 1024, 2047, 2048, 4095, 4096] {
+            if p < big.len() && r.chance(1, 2) {
+                d.push(big[p]);
+            }
+        }
+        d.push(*r.pick(&u));
+        d.sort_unstable();
+        d.dedup();
+        c.push(d);
+    }
+    // the position of the big datasets varies
+    if r.chance(1, 2) {
+        let k = c.len() - 1;
+        c.swap(0, k);
+    }
+    c
+}
+
+fn large_sizes(r: &mut Rng, k: u64) -> Vec<u64> {
+    match k % 6 {
+        0 => vec![1024, 1023, 1025],
+        1 => vec![2049, 2047],
+        2 => vec![4097, 1024],
+        3 => vec![4095, 2048],
+        4 => vec![4096, *r.pick(&BIG[..6])],
+        _ => vec![r.range(1000, 5000), *r.pick(&BIG)],
+    }
+}
+
+/// the large family: datasets of 1000..5000 hashes in all three index types, queries that cover them
+fn gen_large(r: &mut Rng, o: &mut Out, k: u64) {
+    let sizes = large_sizes(r, k);
+    let c = large_coll(r, &sizes);
+    o.case(&format!("coll {}", show_coll(&c)));
+    let nd = c.len();
+    let bigs: Vec<usize> = (0..nd).filter(|&i| c[i].len() >= 1000).collect();
+    let mut queries: Vec<Vec<u64>> = vec![];
+    // a big dataset itself
+    queries.push(c[*r.pick(&bigs)].clone());
+    // the hashes around the 1024-chunk ends of every big dataset (a small query)
+    let mut ends: Vec<u64> = vec![];
+    for &b in &bigs {
+        for p in (1023..c[b].len()).step_by(1024) {
+            ends.extend_from_slice(&c[b][p - 1..(p + 2).min(c[b].len())]);
+        }
+        ends.push(*c[b].last().unwrap());
+        ends.push(c[b][0]);
+    }
+    ends.sort_unstable();
+    ends.dedup();
+    queries.push(ends);
+    // half of everything, at most 5000 hashes
+    let mut all: Vec<u64> = c.iter().flatten().copied().collect();
+    all.sort_unstable();
+    all.dedup();
+    let mut half: Vec<u64> = all.iter().copied().filter(|_| r.chance(1, 2)).collect();
+    half.truncate(5000);
+    queries.push(half);
+    // a small dataset
+    if let Some(s) = (0..nd).find(|&i| c[i].len() < 1000) {
+        queries.push(c[s].clone());
+    }
+    for q in &queries {
+        let qs = show_nats(q.iter().copied());
+        let ovs: Vec<u64> = c.iter().map(|d| overlap(d, q)).collect();
+        let maxov = *ovs.iter().max().unwrap();
+        for kind in ["lin", "mem", "disk"] {
+            o.op(&format!("cnt {} {}", kind, qs));
+            // at the largest overlap: one missing posting drops the dataset
+            o.op(&format!("search {} {} {}", kind, qs, maxov));
+        }
+        o.op(&format!("search disk {} {}", qs, *r.pick(&ovs)));
+    }
+    let q = &queries[1];
+    o.op(&format!("capi {} 1 1 1", show_nats(q.iter().copied())));
+    // histories: narrowing the LinearIndex keeps everything (all flat k-21 DNA scaled-1); the disk index
+    // is rebuilt over .sig files in increments, asked in between, reopened and asked again
+    o.op(&format!("sel lin {}", r.pick(&["-", "scaled=1", "abund=0"])));
+    o.op(&format!("cnt lin {}", show_nats(queries[0].iter().copied())));
+    let split = r.range(1, nd as u64 - 1);
+    o.op(&format!("mk disk {}", split));
+    let ends = show_nats(queries[1].iter().copied());
+    o.op(&format!("cnt disk {}", ends));
+    o.op(&format!("upd disk {}", nd));
+    o.op(&format!("cnt disk {}", ends));
+    o.op("reopen disk");
+    let q0 = show_nats(queries[0].iter().copied());
+    o.op(&format!("cnt disk {}", q0));
+    o.op(&format!("search disk {} {}", q0, queries[0].len()));
+}
+
+const MOLS: [&str; 4] = ["dna", "protein", "dayhoff", "hp"];
+
+#[derive(Clone)]
+struct GRec {
+    k: u64,
+    mol: &'static str,
+    abund: u64,
+    kind: String,
+    hashes: Vec<u64>,
+}
+impl GRec {
+    fn show(&self) -> String {
+        format!("{}:{}:{}:{}:{}", self.k, self.mol, self.abund, self.kind, show_nats(self.hashes.iter().copied()))
+    }
+    /// does the manifest row of this signature pass the selection (the generator's own bookkeeping, to
+    /// know which signature becomes dataset 0; not part of any oracle)
+    fn passes(&self, sel: &str) -> bool {
+        if sel == "-" {
+            return true;
+        }
+        sel.split(',').all(|kv| {
+            let (key, v) = kv.split_once('=').unwrap();
+            match key {
+                "k" => (if self.mol == "dna" { self.k } else { self.k / 3 }).to_string() == v,
+                "mol" => self.mol == v,
+                "abund" => self.abund.to_string() == v,
+                "scaled" => self.kind.starts_with('s') && self.kind[1..].parse::<u64>().unwrap() <= v.parse::<u64>().unwrap(),
+                _ => (if self.kind.starts_with('n') { &self.kind[1..] } else { "0" }) == v,
+            }
+        })
+    }
+    /// the main stream: k-21 DNA scaled-1 sketches, flat or tracking
+    fn main(&self) -> bool {
+        self.k == 21 && self.mol == "dna" && self.kind == "s1"
+    }
+}
+
+const SELS_KEEP_MAIN: [&str; 8] = ["k=21", "mol=dna", "k=21,mol=dna", "scaled=1", "num=0", "k=21,scaled=1", "mol=dna,num=0,scaled=1", "-"];
+
+/// the history family: a collection mixing k, molecule, tracking, scaled and num sketches; selections
+/// before and after building; queries before and after narrowing; update / reopen of the disk index
+fn gen_hist(r: &mut Rng, o: &mut Out) {
+    let base = r.below(500);
+    let usz = r.range(6, 40);
+    let u: Vec<u64> = (0..usz).map(|i| base + i).collect();
+    let nd = r.range(3, 10) as usize;
+    // pure: every signature is compatible k-21 DNA scaled-1 (flat or tracking); otherwise others are
+    // sprinkled in between
+    let pure = r.chance(1, 3);
+    let mut recs: Vec<GRec> = vec![];
+    for i in 0..nd {
+        let num = r.range(1, 7);
+        let mut hashes = subset(r, &u, num, 8);
+        if hashes.is_empty() {
+            hashes.push(*r.pick(&u));
+        }
+        if i > 0 && r.chance(1, 6) {
+            hashes = recs[r.below(i as u64) as usize].hashes.clone();
+        }
+        let abund = r.below(2);
+        let mut g = GRec { k: 21, mol: "dna", abund, kind: "s1".into(), hashes };
+        if !pure && r.chance(2, 5) {
+            match r.below(6) {
+                0 => g.k = 31,
+                1 => {
+                    g.mol = *r.pick(&MOLS[1..]);
+                    g.k = *r.pick(&[21, 30, 63]);
+                }
+                2 => g.kind = "s2".into(),
+                3 => g.kind = format!("n{}", r.pick(&[50u64, 100])),
+                4 => g.kind = "n50".into(),
+                _ => {
+                    g.mol = "protein";
+                    g.k = 63; // row ksize 21
+                }
+            }
+        }
+        recs.push(g);
+    }
+    // --- Collection::select before building (decided first: see below)
+    let all_main = recs.iter().all(|g| g.main());
+    let before = if all_main {
+        r.pick(&SELS_KEEP_MAIN).to_string()
+    } else {
+        // most of the time a selection that leaves compatible scaled sketches
+        match r.below(8) {
+            0 => "-".to_string(),
+            1 => "k=21".to_string(),
+            2 => "k=21,mol=dna".to_string(),
+            3 => "mol=dna,scaled=1".to_string(),
+            _ => "k=21,mol=dna,scaled=1".to_string(),
+        }
+    };
+    let mut csels: Vec<String> = vec![];
+    if before != "-" || r.chance(1, 2) {
+        csels.push(before.clone());
+    }
+    if r.chance(1, 4) {
+        csels.push(r.pick(&["abund=0", "abund=1", "num=0", "scaled=2", "-"]).to_string());
+    }
+    // the signature that becomes dataset 0 of the LinearIndex is a scaled-1 sketch when it is k-21 DNA:
+    // the template then stays compatible with what later selections leave (a template left behind by
+    // select is the recorded finding of corpus/C07/stale-template.ops and is not generated again)
+    if let Some(f) = recs.iter_mut().find(|g| csels.iter().all(|s| g.passes(s))) {
+        if f.k == 21 && f.mol == "dna" {
+            f.kind = "s1".into();
+        }
+    }
+    if !recs.iter().any(|g| g.main()) {
+        recs[0] = GRec { k: 21, mol: "dna", abund: 0, kind: "s1".into(), hashes: recs[0].hashes.clone() };
+    }
+    o.case(&format!("mix {}", recs.iter().map(|g| g.show()).collect::<Vec<_>>().join(";")));
+    let query = |r: &mut Rng| -> String {
+        let q: Vec<u64> = match r.below(4) {
+            0 => recs[r.below(nd as u64) as usize].hashes.clone(),
+            1 => u.clone(),
+            _ => {
+                let num = r.range(2, 7);
+                subset(r, &u, num, 8)
+            }
+        };
+        let hs = show_nats(q.iter().copied());
+        // sometimes a tracking query (compatible), rarely an incompatible one
+        match r.below(12) {
+            0 => format!("21:dna:1:s1:{}", hs),
+            1 if !q.is_empty() => format!("{}:{}", *r.pick(&["31:dna:0:s1", "21:dna:0:s3", "21:protein:0:s1"]), hs),
+            _ => hs,
+        }
+    };
+    let ask = |r: &mut Rng, o: &mut Out, kind: &str| {
+        let q = query(r);
+        o.op(&format!("cnt {} {}", kind, q));
+        o.op(&format!("search {} {} {}", kind, q, r.range(0, 4)));
+    };
+
+    for c in &csels {
+        o.op(&format!("csel {}", c));
+    }
+
+    // --- LinearIndex: query -> select -> query (-> select -> query)
+    o.op("mk lin");
+    o.op("locs lin");
+    if r.chance(5, 6) {
+        ask(r, o, "lin");
+    }
+    let rounds = r.range(1, 3);
+    for _ in 0..rounds {
+        let sel = match r.below(10) {
+            0..=2 => "abund=1",
+            3..=4 => "abund=0",
+            5 => "scaled=1",
+            6 => "num=0,scaled=1",
+            7 => "k=21,mol=dna",
+            8 => "abund=1,k=21",
+            _ => "-",
+        };
+        o.op(&format!("sel lin {}", sel));
+        o.op("locs lin");
+        ask(r, o, "lin");
+        if r.chance(1, 2) {
+            ask(r, o, "lin");
+        }
+    }
+
+    // --- mem RevIndex: the selection is part of its constructor; repeated look-ups on one object
+    let msel = if r.chance(1, 2) { before.clone() } else { r.pick(&["k=21,mol=dna,scaled=1", "k=21,mol=dna,scaled=1,abund=1", "k=21,mol=dna,scaled=1,abund=0", "k=21,scaled=1"]).to_string() };
+    if r.chance(1, 3) {
+        o.op(&format!("mkmem {} {}", msel, r.range(1, nd as u64)));
+    } else {
+        o.op(&format!("mkmem {}", msel));
+    }
+    o.op("locs mem");
+    let q = query(r);
+    o.op(&format!("cnt mem {}", q));
+    o.op(&format!("search mem {} {}", q, r.range(0, 3)));
+    o.op(&format!("cnt mem {}", q));
+    ask(r, o, "mem");
+
+    // --- disk RevIndex: create over a prefix, ask, update, ask, reopen, ask
+    let split = r.range(1, nd as u64);
+    o.op(&format!("mk disk {}", split));
+    o.op("locs disk");
+    ask(r, o, "disk");
+    if r.chance(1, 3) {
+        o.op("reopen disk");
+        ask(r, o, "disk");
+    }
+    let mid = r.range(split, nd as u64);
+    if mid != split && r.chance(1, 2) {
+        o.op(&format!("upd disk {}", mid));
+        ask(r, o, "disk");
+    }
+    o.op(&format!("upd disk {}", nd));
+    o.op("locs disk");
+    ask(r, o, "disk");
+    o.op("reopen disk");
+    o.op("locs disk");
+    ask(r, o, "disk");
+    ask(r, o, "disk");
+}
+
 fn gen(a: &Args) {
     let mut r = Rng::new(a.seed);
     let mut o = Out::new();
     let thorough = a.tier == "thorough";
-    let n = if thorough { 4000 } else { 250 };
-    for ci in 0..n {
-        // a 64-hash universe; a few cases use hashes at the top of the u64 range
-        let base: u64 = if ci % 7 == 3 { u64::MAX - 63 } else if ci % 7 == 5 { (1 << 63) - 32 } else { r.below(1000) };
-        let usize_ = r.range(4, 64);
-        let u: Vec<u64> = (0..usize_).map(|i| base + i).collect();
-        let nd = r.range(1, 12) as usize;
-        let mut c: Vec<Vec<u64>> = vec![];
-        for i in 0..nd {
-            if i > 0 && r.chance(1, 5) {
-                let j = r.below(i as u64) as usize; // duplicate of a dataset
-                c.push(c[j].clone());
-                continue;
-            }
-            let num = r.range(1, 7);
-            let mut d = subset(&mut r, &u, num, 8);
-            if d.is_empty() {
-                d.push(*r.pick(&u));
-            }
-            c.push(d);
+    let n: u64 = if thorough { 4000 } else { 250 };
+    let nhist: u64 = if thorough { 3000 } else { 200 };
+    let nlarge: u64 = if thorough { 24 } else { 6 };
+    // the large cases are spread over the stream (./check runs contiguous chunks of cases in parallel)
+    let total = n + nhist;
+    let every = total / nlarge;
+    let (mut ns, mut nh, mut nl) = (0u64, 0u64, 0u64);
+    for ci in 0..total {
+        if ci % every == every / 2 && nl < nlarge {
+            gen_large(&mut r, &mut o, nl);
+            nl += 1;
         }
-        o.case(&format!("coll {}", show_coll(&c)));
-        let nq = if thorough { 6 } else { 4 };
-        for qi in 0..nq {
-            let q: Vec<u64> = match (qi + ci) % 6 {
-                0 => c[r.below(nd as u64) as usize].clone(), // a dataset itself
-                1 => {
-                    // disjoint from at least one dataset
-                    let d = &c[r.below(nd as u64) as usize];
-                    u.iter().copied().filter(|h| !d.contains(h) && r.chance(2, 3)).collect()
-                }
-                2 => u.clone(),
-                3 if r.chance(1, 3) => vec![],
-                _ => {
-                    let num = r.range(1, 7);
-                    subset(&mut r, &u, num, 8)
-                }
-            };
-            let qs = show_nats(q.iter().copied());
-            let maxov = c.iter().map(|d| d.iter().filter(|h| q.contains(h)).count()).max().unwrap_or(0) as u64;
-            for kind in ["lin", "mem", "disk"] {
-                o.op(&format!("cnt {} {}", kind, qs));
-            }
-            for kind in ["lin", "mem", "disk"] {
-                let t1 = r.range(0, maxov + 1);
-                o.op(&format!("search {} {} {}", kind, qs, t1));
-                let t2 = *r.pick(&[0, 1, maxov, maxov + 1]);
-                o.op(&format!("search {} {} {}", kind, qs, t2));
-            }
-            if qi == 1 {
-                // index restricted to a set of queries
-                let nqs = r.range(1, 3);
-                let mut qs: Vec<Vec<u64>> = (0..nqs)
-                    .map(|_| {
-                        let num = r.range(1, 7);
-                        let mut v = subset(&mut r, &u, num, 8);
-                        if v.is_empty() {
-                            v.push(*r.pick(&u));
-                        }
-                        v
-                    })
-                    .collect();
-                if !q.is_empty() && r.chance(1, 2) {
-                    qs.push(q.clone());
-                }
-                let t = *r.pick(&[0u64, 0, 1, 3]);
-                let probe = if t == 0 && r.chance(1, 2) {
-                    let mut all: Vec<u64> = qs.iter().flatten().copied().filter(|_| r.chance(2, 3)).collect();
-                    all.sort_unstable();
-                    all.dedup();
-                    all
-                } else {
-                    qs[r.below(qs.len() as u64) as usize].clone()
-                };
-                o.op(&format!("cntq {} {} {}", t, show_coll(&qs), show_nats(probe.iter().copied())));
-            }
-            if !q.is_empty() {
-                let k = r.range(0, 4);
-                let num = r.range(0, 1 << k);
-                o.op(&format!("capi {} {} {} {}", qs, num, k, r.below(2)));
-            }
+        // the two small families alternate while both last
+        if ns < n && (ci % 2 == 0 || nh >= nhist) {
+            gen_small(&mut r, &mut o, ns, thorough);
+            ns += 1;
+        } else {
+            gen_hist(&mut r, &mut o);
+            nh += 1;
         }
     }
 }
 
 // ------------------------------------------------------------------------------------ exec
 
+/// one single-sketch signature of a case
+#[derive(Clone)]
+struct Rec {
+    k: u32,
+    mol: HashFunctions,
+    abund: bool,
+    scaled: u64,
+    num: u32,
+    hashes: Vec<u64>,
+}
+
+fn parse_rec(s: &str) -> Rec {
+    let p: Vec<&str> = s.split(':').collect();
+    if p.len() == 5 {
+        let v: u64 = p[3][1..].parse().unwrap();
+        let is_num = p[3].starts_with('n');
+        Rec {
+            k: p[0].parse().unwrap(),
+            mol: match p[1] {
+                "protein" => HashFunctions::Murmur64Protein,
+                "dayhoff" => HashFunctions::Murmur64Dayhoff,
+                "hp" => HashFunctions::Murmur64Hp,
+                _ => HashFunctions::Murmur64Dna,
+            },
+            abund: p[2] == "1",
+            scaled: if is_num { 0 } else { v },
+            num: if is_num { v as u32 } else { 0 },
+            hashes: parse_nats(p[4]),
+        }
+    } else {
+        Rec { k: KSIZE, mol: HashFunctions::Murmur64Dna, abund: false, scaled: 1, num: 0, hashes: parse_nats(s) }
+    }
+}
+
+fn mh_of(rec: &Rec) -> KmerMinHash {
+    let mut mh = KmerMinHash::new(rec.scaled, rec.k, rec.mol.clone(), 42, rec.abund, rec.num);
+    for h in &rec.hashes {
+        if rec.abund {
+            mh.add_hash_with_abundance(*h, h % 3 + 1);
+        } else {
+            mh.add_hash(*h);
+        }
+    }
+    assert_eq!(mh.mins(), rec.hashes, "the sketch holds exactly the given hashes");
+    mh
+}
+
+fn sig_of(loc: usize, rec: &Rec) -> Signature {
+    let mut sig = Signature::default();
+    sig.set_name(&format!("d{}", loc));
+    sig.set_filename(&format!("d{}.fa", loc));
+    sig.push(Sketch::MinHash(mh_of(rec)));
+    sig
+}
+
+fn sigs_of(recs: &[Rec]) -> Vec<Signature> {
+    recs.iter().enumerate().map(|(i, r)| sig_of(i, r)).collect()
+}
+
+fn parse_sel(s: &str) -> Selection {
+    let mut sel = Selection::default();
+    if s == "-" {
+        return sel;
+    }
+    for kv in s.split(',') {
+        let (k, v) = kv.split_once('=').unwrap();
+        match k {
+            "k" => sel.set_ksize(v.parse().unwrap()),
+            "mol" => sel.set_moltype(parse_rec(&format!("21:{}:0:s1:-", v)).mol),
+            "abund" => sel.set_abund(v == "1"),
+            "scaled" => sel.set_scaled(v.parse().unwrap()),
+            "num" => sel.set_num(v.parse().unwrap()),
+            _ => panic!("selection key"),
+        }
+    }
+    sel
+}
+
 #[derive(Default)]
 struct St {
-    coll: Vec<Vec<u64>>,
+    raw: Vec<Rec>,
+    chain: Vec<Selection>,
     lin: Option<LinearIndex>,
     #[cfg(feature = "disk")]
     mem: Option<mem_revindex::RevIndex>,
+    /// the index, and whether its collection lives in .sig files (else in a MemStorage)
     #[cfg(feature = "disk")]
-    disk: Option<(RevIndex, tempfile::TempDir)>,
+    disk: Option<(RevIndex, bool)>,
+    #[cfg(feature = "disk")]
+    disk_dir: Option<std::path::PathBuf>,
+    #[cfg(feature = "disk")]
+    paths: Vec<camino::Utf8PathBuf>,
+    #[cfg(feature = "disk")]
+    ndirs: usize,
+    #[cfg(feature = "disk")]
+    tmp: Option<tempfile::TempDir>,
 }
 
-fn sigs_of(c: &[Vec<u64>]) -> Vec<Signature> {
-    c.iter().enumerate().map(|(i, d)| make_sig(&format!("d{}", i), d, None, 1)).collect()
+fn apply_chain(mut c: Collection, chain: &[Selection]) -> Collection {
+    for s in chain {
+        c = c.select(s).unwrap();
+    }
+    c
+}
+
+/// the `d<loc>` names of a collection's records, in id order
+fn locs_of(c: &Collection) -> Vec<u64> {
+    c.iter().map(|(_, r)| r.name().strip_prefix('d').unwrap().parse().unwrap()).collect()
 }
 
 fn show_counter<'a>(c: impl Iterator<Item = (&'a u32, &'a usize)>) -> String {
@@ -175,74 +671,207 @@ fn show_matches(ms: &[(u64, u64)], desc_key: impl Fn(u64) -> f64) -> String {
     format!("{} {}", body, if ordered { "ordered" } else { "unordered" })
 }
 
-/// the serial build (sourmash without `branchwater`) has LinearIndex only
-#[cfg(not(feature = "disk"))]
-fn step(st: &mut St, ws: &[&str]) -> String {
+fn first_n(st: &St, n: Option<&&str>) -> usize {
+    n.map(|n| n.parse().unwrap()).unwrap_or(st.raw.len()).min(st.raw.len())
+}
+
+/// the operations on the LinearIndex (answered by both builds of the harness)
+fn step_lin(st: &mut St, ws: &[&str]) -> String {
     match ws[0] {
-        "case" => {
-            st.coll = ws[3].split(';').map(parse_nats).collect();
-            st.lin = Some(LinearIndex::from_collection(mem_collection(sigs_of(&st.coll))));
-            "ok".into()
+        "csel" => {
+            st.chain.push(parse_sel(ws[1]));
+            let c = apply_chain(Collection::from_sigs(sigs_of(&st.raw)).unwrap(), &st.chain);
+            // Collection::from_sigs stores signature i at internal location "i"
+            let locs = locs_of(&c);
+            assert!(c.iter().zip(&locs).all(|((_, r), l)| r.internal_location().as_str() == l.to_string()));
+            show_nats(locs)
         }
-        "cnt" | "search" if ws[1] == "lin" => {
-            let q = make_mh(&parse_nats(ws[2]), None, 1);
-            let counter = st.lin.as_ref().unwrap().counter_for_query(&q);
+        "mk" => {
+            st.lin = None;
+            let n = first_n(st, ws.get(2));
+            let c = apply_chain(Collection::from_sigs(sigs_of(&st.raw[..n])).unwrap(), &st.chain);
+            let cs: Result<CollectionSet, _> = c.try_into();
+            match cs {
+                Ok(cs) => {
+                    let idx = LinearIndex::from_collection(cs);
+                    let len = idx.collection().len();
+                    st.lin = Some(idx);
+                    format!("ok {}", len)
+                }
+                Err(e) => format!("err {:?}", e),
+            }
+        }
+        "sel" => {
+            let idx = st.lin.take().unwrap();
+            match idx.select(&parse_sel(ws[2])) {
+                Ok(idx) => {
+                    let len = idx.collection().len();
+                    st.lin = Some(idx);
+                    format!("ok {}", len)
+                }
+                Err(e) => format!("err {:?}", e),
+            }
+        }
+        "locs" => show_nats(locs_of(st.lin.as_ref().unwrap().collection())),
+        "cnt" | "search" => {
+            let q = mh_of(&parse_rec(ws[2]));
+            let idx = st.lin.as_ref().unwrap();
+            let counter = idx.counter_for_query(&q);
             if ws[0] == "cnt" {
                 return show_counter(counter.iter());
             }
             let t: usize = ws[3].parse().unwrap();
             let count_of = |i: u64| -> u64 { counter.get(&(i as u32)).copied().unwrap_or(0) as u64 };
-            // Collection::from_sigs stores dataset i at internal location "i"
-            let ms: Vec<(u64, u64)> = st
-                .lin
-                .as_ref()
-                .unwrap()
+            // a returned location is mapped back to the id of the dataset that owns it now
+            let ms: Vec<(u64, u64)> = idx
                 .search(counter.clone(), false, t)
                 .unwrap()
                 .into_iter()
                 .map(|l| {
-                    let i: u64 = l.parse().unwrap();
+                    let i = idx.collection().iter().position(|(_, r)| r.internal_location().as_str() == l).unwrap() as u64;
                     (i, count_of(i))
                 })
                 .collect();
             show_matches(&ms, |n| n as f64)
         }
-        "cnt" | "search" | "cntq" | "capi" => "NA".into(),
         _ => "bad-op".into(),
     }
+}
+
+/// the serial build (sourmash without `branchwater`) has LinearIndex only
+#[cfg(not(feature = "disk"))]
+fn step(st: &mut St, ws: &[&str]) -> String {
+    match ws[0] {
+        "case" => {
+            st.raw = ws[3].split(';').map(parse_rec).collect();
+            if ws[2] == "coll" {
+                st.lin = Some(LinearIndex::from_collection(mem_collection(sigs_of(&st.raw))));
+            }
+            "ok".into()
+        }
+        "csel" => step_lin(st, ws),
+        "mk" | "sel" | "locs" | "cnt" | "search" if ws[1] == "lin" => step_lin(st, ws),
+        "mk" | "mkmem" | "upd" | "reopen" | "locs" | "cnt" | "search" | "cntq" | "capi" => "NA".into(),
+        _ => "bad-op".into(),
+    }
+}
+
+#[cfg(feature = "disk")]
+fn mem_locs(idx: &mem_revindex::RevIndex) -> Vec<u64> {
+    idx.signatures().iter().map(|s| s.name().strip_prefix('d').unwrap().parse().unwrap()).collect()
+}
+
+/// the collection an on-disk build / update sees: chain(first n signatures), stored in files or in memory
+#[cfg(feature = "disk")]
+fn disk_collection(st: &mut St, n: usize, fs: bool) -> Collection {
+    if st.tmp.is_none() {
+        st.tmp = Some(scratch_dir());
+    }
+    let c = if fs {
+        if st.paths.is_empty() {
+            st.paths = write_sig_files(&st.tmp.as_ref().unwrap().path().join("sigs"), &sigs_of(&st.raw));
+        }
+        Collection::from_paths(&st.paths[..n]).unwrap()
+    } else {
+        Collection::from_sigs(sigs_of(&st.raw[..n])).unwrap()
+    };
+    apply_chain(c, &st.chain)
 }
 
 #[cfg(feature = "disk")]
 fn step(st: &mut St, ws: &[&str]) -> String {
     match ws[0] {
         "case" => {
-            st.coll = ws[3].split(';').map(parse_nats).collect();
-            st.lin = Some(LinearIndex::from_collection(mem_collection(sigs_of(&st.coll))));
+            st.raw = ws[3].split(';').map(parse_rec).collect();
+            if ws[2] != "coll" {
+                return "ok".into();
+            }
+            let sigs = sigs_of(&st.raw);
+            st.lin = Some(LinearIndex::from_collection(mem_collection(sigs.clone())));
             let sel = Selection::builder().ksize(KSIZE).scaled(1).build();
-            st.mem = Some(mem_revindex::RevIndex::new_with_sigs(sigs_of(&st.coll), &sel, 0, None).unwrap());
-            let tmp = scratch_dir();
+            st.mem = Some(mem_revindex::RevIndex::new_with_sigs(sigs.clone(), &sel, 0, None).unwrap());
+            st.tmp = Some(scratch_dir());
+            let dir = st.tmp.as_ref().unwrap().path().join("idx");
             // every other case builds the on-disk index in two increments (create over the first
             // dataset, then update with the whole collection): lookups must not depend on how the
             // index came to be (C09's T-extend says the two builds are indistinguishable)
             let n: u64 = ws[1].parse().unwrap_or(0);
-            let idx = if n % 2 == 1 && st.coll.len() >= 3 {
-                let first = RevIndex::create(
-                    tmp.path().join("idx"),
-                    mem_collection(sigs_of(&st.coll[..1].to_vec())),
-                    false,
-                )
-                .unwrap();
-                first.update(mem_collection(sigs_of(&st.coll))).unwrap()
+            let idx = if n % 2 == 1 && st.raw.len() >= 3 {
+                let first = RevIndex::create(&dir, mem_collection(sigs[..1].to_vec()), false).unwrap();
+                first.update(mem_collection(sigs)).unwrap()
             } else {
-                RevIndex::create(tmp.path().join("idx"), mem_collection(sigs_of(&st.coll)), false).unwrap()
+                RevIndex::create(&dir, mem_collection(sigs), false).unwrap()
             };
-            st.disk = Some((idx, tmp));
+            st.disk = Some((idx, false));
+            st.disk_dir = Some(dir);
             "ok".into()
         }
+        "csel" => step_lin(st, ws),
+        "mk" | "sel" | "locs" | "cnt" | "search" if ws[1] == "lin" => step_lin(st, ws),
+        "mk" => {
+            st.disk = None;
+            let n = first_n(st, ws.get(2));
+            let cs: Result<CollectionSet, _> = disk_collection(st, n, true).try_into();
+            match cs {
+                Ok(cs) => {
+                    st.ndirs += 1;
+                    let dir = st.tmp.as_ref().unwrap().path().join(format!("idx{}", st.ndirs));
+                    let idx = RevIndex::create(&dir, cs, false).unwrap();
+                    let len = idx.collection().len();
+                    st.disk = Some((idx, true));
+                    st.disk_dir = Some(dir);
+                    format!("ok {}", len)
+                }
+                Err(e) => format!("err {:?}", e),
+            }
+        }
+        "mkmem" => {
+            st.mem = None;
+            let n = first_n(st, ws.get(2));
+            match mem_revindex::RevIndex::new_with_sigs(sigs_of(&st.raw[..n]), &parse_sel(ws[1]), 0, None) {
+                Ok(idx) => {
+                    let len = idx.len();
+                    st.mem = Some(idx);
+                    format!("ok {}", len)
+                }
+                Err(e) => format!("err {:?}", e),
+            }
+        }
+        "upd" => {
+            let fs = st.disk.as_ref().unwrap().1;
+            let n = first_n(st, ws.get(2));
+            let cs: Result<CollectionSet, _> = disk_collection(st, n, fs).try_into();
+            match cs {
+                Ok(cs) => {
+                    let (idx, _) = st.disk.take().unwrap();
+                    match idx.update(cs) {
+                        Ok(idx) => {
+                            let len = idx.collection().len();
+                            st.disk = Some((idx, fs));
+                            format!("ok {}", len)
+                        }
+                        Err(e) => format!("err {:?}", e),
+                    }
+                }
+                Err(e) => format!("err {:?}", e),
+            }
+        }
+        "reopen" => {
+            let (idx, fs) = st.disk.take().unwrap();
+            assert!(fs, "a MemStorage collection cannot be reopened");
+            drop(idx);
+            let idx = RevIndex::open(st.disk_dir.as_ref().unwrap(), false, None).unwrap();
+            let len = idx.collection().len();
+            st.disk = Some((idx, fs));
+            format!("ok {}", len)
+        }
+        "locs" => match ws[1] {
+            "mem" => show_nats(mem_locs(st.mem.as_ref().unwrap())),
+            _ => show_nats(locs_of(st.disk.as_ref().unwrap().0.collection())),
+        },
         "cnt" | "search" => {
-            let q = make_mh(&parse_nats(ws[2]), None, 1);
+            let q = mh_of(&parse_rec(ws[2]));
             let counter = match ws[1] {
-                "lin" => st.lin.as_ref().unwrap().counter_for_query(&q),
                 "mem" => st.mem.as_ref().unwrap().counter_for_query(&q),
                 _ => st.disk.as_ref().unwrap().0.counter_for_query(&q),
             };
@@ -252,30 +881,28 @@ fn step(st: &mut St, ws: &[&str]) -> String {
             let t: usize = ws[3].parse().unwrap();
             let count_of = |i: u64| -> u64 { counter.get(&(i as u32)).copied().unwrap_or(0) as u64 };
             let ms: Vec<(u64, u64)> = match ws[1] {
-                "disk" => st
-                    .disk
-                    .as_ref()
-                    .unwrap()
-                    .0
-                    .matches_from_counter(counter.clone(), t)
-                    .into_iter()
-                    .map(|(name, size)| {
-                        // the record's own name is d<id>
-                        let i: u64 = name.strip_prefix('d').unwrap().parse().unwrap();
-                        assert_eq!(count_of(i), size as u64);
-                        (i, size as u64)
-                    })
-                    .collect(),
-                kind => {
-                    let locs = if kind == "lin" {
-                        st.lin.as_ref().unwrap().search(counter.clone(), false, t).unwrap()
-                    } else {
-                        st.mem.as_ref().unwrap().search(counter.clone(), false, t).unwrap()
-                    };
-                    // Collection::from_sigs stores dataset i at internal location "i"
-                    locs.into_iter()
+                "disk" => {
+                    let idx = &st.disk.as_ref().unwrap().0;
+                    idx.matches_from_counter(counter.clone(), t)
+                        .into_iter()
+                        .map(|(name, size)| {
+                            // the id of the dataset whose record carries the returned name
+                            let i = idx.collection().iter().position(|(_, r)| *r.name() == name).unwrap() as u64;
+                            assert_eq!(count_of(i), size as u64);
+                            (i, size as u64)
+                        })
+                        .collect()
+                }
+                _ => {
+                    let idx = st.mem.as_ref().unwrap();
+                    let locs = mem_locs(idx);
+                    // Collection::from_sigs stores signature i at internal location "i"
+                    idx.search(counter.clone(), false, t)
+                        .unwrap()
+                        .into_iter()
                         .map(|l| {
-                            let i: u64 = l.parse().unwrap();
+                            let loc: u64 = l.parse().unwrap();
+                            let i = locs.iter().position(|x| *x == loc).unwrap() as u64;
                             (i, count_of(i))
                         })
                         .collect()
@@ -287,7 +914,7 @@ fn step(st: &mut St, ws: &[&str]) -> String {
             let t: usize = ws[1].parse().unwrap();
             let qs: Vec<_> = ws[2].split(';').map(|q| make_mh(&parse_nats(q), None, 1)).collect();
             let sel = Selection::builder().ksize(KSIZE).scaled(1).build();
-            let idx = mem_revindex::RevIndex::new_with_sigs(sigs_of(&st.coll), &sel, t, Some(&qs)).unwrap();
+            let idx = mem_revindex::RevIndex::new_with_sigs(sigs_of(&st.raw), &sel, t, Some(&qs)).unwrap();
             show_counter(idx.counter_for_query(&make_mh(&parse_nats(ws[3]), None, 1)).iter())
         }
         "capi" => {
@@ -317,7 +944,7 @@ fn step(st: &mut St, ws: &[&str]) -> String {
                         let name = SourmashSignature::as_rust(sp).name();
                         assert_eq!(name, format!("d{}", i));
                         let mh = SourmashSignature::as_rust(sp).minhash().unwrap().mins();
-                        assert_eq!(mh, st.coll[i as usize]);
+                        assert_eq!(mh, st.raw[i as usize].hashes);
                         SourmashSignature::drop(sp);
                         ms.push((i, score.to_bits()));
                         searchresult_free(*p as *mut SourmashSearchResult);
